@@ -46,6 +46,9 @@ PROPS = {
                           dict(name="fe", family="fe", profile="fe", quick=700, thorough=8000, tags=["issues", "first", "panic", "nested_source_tag"])]),
     "C12": dict(theorems=["C12_engine_computes_semantics"], cone=ENGINE_CONE, rule=ENGINE_RULE,
                 families=[eng("engine", "C12", 1200, 20000, ["calls", "args", "ctx", "haserr", "panic"])]),
+    "C13": dict(theorems=["C13_engine_computes_semantics"], cone=ENGINE_CONE,
+                rule="a generated schema (no Preprocess, no PostTransforms, no custom coercers) and a generated fully populated value of its destination type (no zero leaf, no empty slice, no nil pointer); the value is validated in place and, presented as the plain map it would be decoded from, parsed into a fresh destination; issues (path, code, type, message) and final values are compared with each other (model-free) and both executions with the Coq engine; distinct = distinct (schema shape, issue codes, mode)",
+                families=[dict(name="modes", family="modes", profile="C13", quick=700, thorough=12000, tags=["modes_agree", "panic", "nil", "issues", "dest"])]),
     "C14": dict(theorems=["C14_struct_sources_agree", "C14_engine_computes_semantics", "C14_provider_key", "C14_factory_transparent_struct",
                           "C14_factory_transparent_ptr", "C14_nested_source_tag_refuted", "C14_nested_flat_source_refuted"],
                 cone=ENGINE_CONE + ["Proofs/FrontEndsP.v"],
